@@ -104,6 +104,11 @@ pub fn gen_enum(t: &mut Tape, name: &str, w: u64) -> EnumDef {
         }
     }
     let esty = (t.below(4) as u8) | if t.chance(1, 3) { 0x80 } else { 0 } | if t.chance(1, 3) { 0x40 } else { 0 };
+    let copyable = t.chance(1, 2);
+    // now and then the enum is a singleton too (only with copyable: finding F32): one more item-level
+    // attribute, anywhere among the markers. Each enum gets a page of its own (the L3 driver maps it).
+    let k: i128 = name.trim_start_matches(|c: char| !c.is_ascii_digit()).parse().unwrap_or(0);
+    let singleton = if copyable && t.chance(1, 5) { Some(Num::d(0x7654_0000 + (k + 1) * 0x1000)) } else { None };
     EnumDef {
         sty: esty,
         vis: true,
@@ -111,8 +116,8 @@ pub fn gen_enum(t: &mut Tape, name: &str, w: u64) -> EnumDef {
         doc: edoc,
         base: base.to_string(),
         variants,
-        singleton: None,
-        copyable: t.chance(1, 2),
+        singleton,
+        copyable,
         cloneable: t.chance(1, 3),
         defaultable,
     }
@@ -177,7 +182,7 @@ impl Prop for Values {
         "C08/values".into()
     }
     fn rule(&self) -> String {
-        "20 enums per crate over all ten integer bases, 1-32 variants, explicit values (negative where signed, any spelling, boundary values of the base within what the grammar's isize can write) mixed with implicit runs, default marker anywhere or absent, copyable/cloneable/defaultable subsets; executed on the host: the driver prints `Variant as <int>` for every variant, size_of, align_of and Default::default(). Oracle: written value, else predecessor + 1 (first 0); size and alignment of the base type, also as pyxis records them for use in embedding types; default = the marked variant. Non-trivial enum: >=3 variants with an explicit value followed by an implicit one, or a boundary value, or a default that is not the first variant".into()
+        "20 enums per crate over all ten integer bases, 1-32 variants, explicit values (negative where signed, any spelling, boundary values of the base within what the grammar's isize can write) mixed with implicit runs, default marker anywhere or absent, copyable/cloneable/defaultable subsets in any order, sometimes with a singleton attribute among them; executed on the host: the driver prints `Variant as <int>` for every variant, size_of, align_of and Default::default(). Oracle: written value, else predecessor + 1 (first 0); size and alignment of the base type, also as pyxis records them for use in embedding types; default = the marked variant. Non-trivial enum: >=3 variants with an explicit value followed by an implicit one, or a boundary value, or a default that is not the first variant".into()
     }
     fn gen(&self, t: &mut Tape) -> L3Case {
         L3Case {
